@@ -18,7 +18,7 @@ from scales.varz import VarzAggregator, VarzReceiver
 from peers import servers as srv
 from sim.calls import CallTracker, exc_name
 from sim.child import REC, install_net
-from sim.loop import CLOCK, EPOCH, SimLoop
+from sim.loop import CLOCK, EPOCH, SimLoop, WALL
 
 from worlds.w_stack import CLIENT_ID_KEY, DEADLINE_KEY, RES
 
@@ -104,6 +104,9 @@ class StackWorld(object):
     self.heal_times = {}
     self.attempts = {}
     self.retry_attempts = {}
+    self.clock_steps = any(f.get('do') == 'clock_step' for f in scn.get('faults', ()))
+    # runs in which deadlines cannot be judged on the loop's clock
+    self.time_faults = self.clock_steps or bool((scn.get('loop') or {}).get('stall_prob'))
     self.mode_log = {}          # ep index -> [(time, mode)]
 
   # ------------------------------------------------------------------ build
@@ -345,7 +348,8 @@ class StackWorld(object):
         REC.violation('C13', 'deadline_context_missing', 'call %s: deadline context %r' % (r.call_id, dl))
       else:
         ts, d = struct.unpack('!qq', dl)
-        want_d = (c.t + T) * 1e9
+        wall0 = c.extra.get('wall0', 0.0)          # wall-clock offset when the call was issued
+        want_d = (c.t + wall0 + T) * 1e9
         # the deadline may be reduced by the time spent waiting for open (see C01 notes)
         slack = 2e6 + (max(0.0, (c.extra.get('open_wait') or 0.0)) * 1e9 * 2)
         if abs(d - want_d) > slack:
@@ -354,8 +358,10 @@ class StackWorld(object):
                         {'before_open': c.before_open})
         # the timestamp is taken (in whole seconds) when the request is
         # serialized, i.e. between the call being issued and the frame arriving
-        now_ns = CLOCK.now * 1e9
-        if not ((math.floor(c.t) - 1) * 1e9 <= ts <= now_ns + 1e6):
+        now_ns = (CLOCK.now + WALL.offset) * 1e9
+        if self.clock_steps:
+          pass        # the timestamp is on a clock that jumped in between
+        elif not ((math.floor(c.t) - 1) * 1e9 <= ts <= now_ns + 1e6):
           REC.violation('C13', 'deadline_timestamp_wrong',
                         'call %s: deadline context timestamp %d ns at time %d ns' % (r.call_id, ts, now_ns))
     elif dl is not None:
@@ -386,6 +392,11 @@ class StackWorld(object):
   def apply_fault(self, f):
     do = f['do']
     self.loop.note('fault', '%s ep=%s' % (do, f.get('ep')))
+    if do == 'clock_step':
+      # the wall clock (time.time) jumps; loop timers and monotonic time do not
+      WALL.offset += f['by']
+      REC.fault('clock_step_forward' if f['by'] > 0 else 'clock_step_backward')
+      return
     if do == 'close':
       if self.closed_at is None:
         if f.get('snap'):
@@ -460,6 +471,7 @@ class StackWorld(object):
       args = (srv.Unserialisable(cid),)      # an object where the interface declares a string
       REC.probe('unserialisable_argument')
     snap_closed = [r for r in self.resurrectors]
+    wall0 = WALL.offset
     all_down = None
     if self.closed_at is None and self.balancers and self.resurrectors:
       # every member the balancer is using is down (its resurrector reports
@@ -486,6 +498,7 @@ class StackWorld(object):
     else:
       c = self.tracker.issue(self.dispatcher, cid, m, args, timeout=op.get('timeout'), spec=op)
     c.extra['all_down_at_issue'] = all_down
+    c.extra['wall0'] = wall0
     if self.scn.get('close_on') == cid and c.ar is not None and self.closed_at is None:
       def close_now(_ar):
         if self.closed_at is None:
@@ -542,8 +555,7 @@ class StackWorld(object):
   # ----------------------------------------------------------------- oracles
   def end_checks(self):
     tr = self.tracker
-    stall = bool(self.scn.get('loop', {}).get('stall_prob'))
-    tr.check_exactly_once(prop='C01', stall=stall)
+    tr.check_exactly_once(prop='C01', stall=self.time_faults, clock_steps=self.clock_steps)
     self.check_c02_c14()
     self.check_c12()
     if self.stack == 'mux':
@@ -721,7 +733,7 @@ class StackWorld(object):
     """The caller timed out although a well-formed reply reached the client on
     a healthy connection comfortably before the deadline: the client failed to
     read / decode / route it (framing or header codec)."""
-    if K not in WELL_FORMED or self.cfg.get('adversarial') or (self.scn.get('loop') or {}).get('stall_prob'):
+    if K not in WELL_FORMED or self.cfg.get('adversarial') or self.time_faults:
       return
     op = self.specs.get(c.id)
     if r.delivered_at is None or op is None:
@@ -765,7 +777,8 @@ class StackWorld(object):
   def check_c12(self):
     tr = self.tracker
     log = self.net.send_log
-    if not log:
+    if not log or self.clock_steps:
+      # (after a wall-clock step the code's own idea of "expired" moves with the clock)
       return
     for c in tr.order:
       cd = c.caller_done()
@@ -785,6 +798,17 @@ class StackWorld(object):
                           c.id, t0 - EPOCH, conn_id, when - EPOCH),
                         {'before_open': c.before_open, 'stack': self.stack})
           break
+        if seq <= mark and needle in data and self.stack == 'thrift':
+          # a write that was blocked half-way by back-pressure when the deadline
+          # fired: the serial transport abandons it (a multiplexed connection
+          # has to finish the frame it has begun)
+          for seq2, when2, conn2, origin in self.net.send_cont:
+            if origin == seq and seq2 > mark:
+              REC.violation('C12', 'sent_after_timeout',
+                            'call %s was handed TimeoutError at %.6f; the rest of its blocked request was written to conn %s at %.6f' % (
+                              c.id, t0 - EPOCH, conn2, when2 - EPOCH),
+                            {'before_open': c.before_open, 'stack': self.stack, 'rest_of_blocked_write': True})
+              break
       if self.stack == 'mux':
         # written earlier on a connection that stays healthy => Tdiscarded for its tag
         for arr in c.arrivals:
@@ -1020,7 +1044,9 @@ class StackWorld(object):
           source.to_tuple(), pcts,))
     durs = sorted(c.completions[0][0] - c.t for c in tr.order if c.completions and c.inner is not None)
     got_d = sorted(all_samples)
-    if len(durs) <= 1000 and (len(durs) != len(got_d) or
+    if self.clock_steps:
+      pass          # latencies are measured with time.time(), which jumped
+    elif len(durs) <= 1000 and (len(durs) != len(got_d) or
                               any(abs(a - b) > 1e-4 for a, b in zip(durs, got_d))):
       REC.violation('C18', 'latency_samples_mismatch',
                     '%d latency samples recorded, %d calls completed' % (len(got_d), len(durs)))
